@@ -189,7 +189,8 @@ _REQ_CODES = {"Diff1": "model event log (outcomes, identities, exports seen) dif
               "SpecFail2": "a bare / node: name yielded an implementation other than the registrations prescribe",
               "SpecFail3": "the same native name yielded two different objects", "SpecFail4": "a native loader ran more than once in one runtime",
               "SpecFail5": "two requires of one file without re-evaluation returned different exports, or a re-evaluation without a failure in between",
-              "Implthrown-value-not-identical": "the value caught by the requirer is not the thrown value", "Implrequire-crashed": "require crashed"}
+              "Implthrown-value-not-identical": "the value caught by the requirer is not the thrown value", "Implrequire-crashed": "require crashed",
+              "Implthrown-value-did-not-reach-the-requirer": "a module body threw, but the require() evaluating it did not report that very value next"}
 
 _REQ_TRUST = ["goja: evaluation of the rendered JavaScript (assignment, call, try/catch, throw, Map identity), CaptureCallStack source names",
               "path/filepath Join/Clean/Dir/Base (modelled on a cleaned representation, validated by the run)"]
@@ -204,7 +205,8 @@ PROPS["C01"] = dict(harness="reqmod", module="Cases.ReqCheck", env={"VERIF_PROFI
                "path (the code overwrites; equal by determinism of the candidates, observed by the correspondence, not proved). Tie: differential "
                "histories (identities via a JS Map, counters, loader log) + trace oracles independent of the model.",
     rule="module graphs over /vr/app with 2-4 mutually requiring files (cycles of length 1..4), set/throw/caught and uncaught requires at random "
-         "positions, json/invalid-json/directory/node_modules targets, 7 spellings per file, 2-6 top-level calls from JavaScript and from Go with "
+         "positions, json/invalid-json/directory/node_modules targets, packages whose main names a file or a directory (with and without a competing "
+         "root index), 7 spellings per file, 2-6 top-level calls from JavaScript and from Go with "
          "retries after failures; non-trivial = at least 2 files; distinct by hash",
     trusted=_REQ_TRUST, assumptions=["the file tree does not change while the runtime lives"])
 PROPS["C02"] = dict(harness="reqmod", module="Cases.ReqCheck", env={"VERIF_PROFILE": "resolve"}, shard=60, codes=_REQ_CODES,
